@@ -25,6 +25,65 @@ W = "ignore::walk"
 WK = W + "::Worker"
 
 
+def seed_rule(ctx, r):
+    """Stack::new_for_each_thread: every initial message reaches a deque. The pushing loop must be driven by the whole
+    `init` vector: an iterator chain rooted at init.into_iter() with no truncating adapter, zipped (if at all) with a
+    cycled partner."""
+    facts = ctx.facts
+    W_ = "ignore::walk::"
+    f = facts.fn(W_ + "Stack::new_for_each_thread")
+    eb = ExprBuilder(f)
+    TRUNC = ("take", "skip", "step_by", "take_while", "skip_while", "filter", "filter_map", "nth", "chunks", "chunks_exact", "drain")
+    pushers = []       # (call whose receiver is the driving iterator, loc)
+    for cl in facts.closures_of(f.path):
+        if cl.calls_to(W_ + "Stack::push") or [c for c in cl.calls() if c.path.endswith("Worker::push") or c.path.endswith("Deque::push")]:
+            for c in f.calls():
+                if c.path.split("::")[-1] in ("for_each", "try_for_each", "fold") and \
+                        any(x.k == "closure" and x[1] == cl.path for a in c.args for x in walk(eb.operand(a))):
+                    pushers.append((c, eb.operand(c.args[0])))
+    hdrs = {h for _, h in C.back_edges(f)}
+    for c in f.calls_to(W_ + "Stack::push"):
+        # a `for` loop: the iterator advanced by the loop that contains the push
+        for n in f.calls():
+            if n.path.endswith("Iterator::next") and any(c.bb in C.reach(f, [n.target], stop_blocks={n.bb}) for _ in [0]) and \
+                    n.bb in C.reach(f, [c.bb]):
+                pushers.append((n, eb.operand(n.args[0])))
+    if not pushers:
+        r.bad("seed|loop", "anchor-missing: no loop in Stack::new_for_each_thread pushes the initial messages", fn=f)
+        return
+    init_arg = [i for i, a in enumerate(f.d.get("inputs", [])) if "Message" in str(a)]
+    for c, e in pushers:
+        # follow the receiver chain of the iterator adapters down to its source
+        def peel(n):
+            while isinstance(n, X):
+                if n.k in ("ref", "deref", "cast") and isinstance(n[1], X):
+                    n = n[1]
+                elif n.k == "phi":
+                    alts = [a for a in n[2] if isinstance(a, X) and a.k not in ("partial", "other")]
+                    if len(alts) != 1:
+                        break
+                    n = alts[0]
+                else:
+                    break
+            return n
+        chain, zips, node = [], [], peel(e)
+        while isinstance(node, X) and node.k == "call" and node[3]:
+            chain.append(node[1].split("::")[-1])
+            if node[1].endswith("Iterator::zip") and len(node[3]) > 1:
+                zips.append(node[3][1])
+            node = peel(node[3][0])
+        from_init = isinstance(node, X) and node.k == "arg" and (node[2] == "init" or (init_arg and node[1] == init_arg[0] + 1))
+        trunc = sorted({n for n in chain if n in TRUNC})
+        zip_ok = all(any(is_call(y, "core::iter::traits::iterator::Iterator::cycle") for y in walk(z)) for z in zips)
+        if from_init and not trunc and zip_ok:
+            r.ok("seed|all", "initial messages: init.into_iter()%s drives the pushes, nothing truncates it" % (" zipped with a cycle" if zips else ""), fn=f)
+        else:
+            why = "is not an iterator over the whole `init` vector" if not from_init else \
+                  ("is truncated by %s" % ", ".join(trunc) if trunc else "is zipped with a finite partner")
+            r.bad("seed|all", "the loop that hands the initial roots to the per-thread deques %s: some roots can be dropped without "
+                  "any error (the serial walker still visits them)" % why, fn=f, loc=c.loc, construct="new_for_each_thread")
+
+
 def run(ctx):
     facts = ctx.facts
     f = facts.fn(WK + "::get_work")
@@ -265,6 +324,8 @@ def run(ctx):
         else:
             r.bad("body", "spawned threads do not run Worker::run", fn=vis[0])
 
+    with ctx.rule("C07.SEED", "every initial root is handed to some worker's deque", floor=1, kind="FLOW") as r:
+        seed_rule(ctx, r)
     with ctx.rule("C07.STEAL", "pop falls back to steal; steal visits every other worker and never itself", floor=3, kind="FLOW") as r:
         p = facts.with_closures(W + "::Stack::pop")
         if any(c.path == W + "::Stack::steal" for g in p for c in g.calls()) and \
